@@ -36,6 +36,11 @@ def run_witnesses(repo=None):
         r = subprocess.run(["cargo", "+nightly", "test", "--doc", "--offline", "--manifest-path", os.path.join(hdir, "Cargo.toml")],
                            env=env, stdout=subprocess.PIPE, stderr=subprocess.STDOUT, text=True)
     finally:
+        if repo != "/repo":
+            try:
+                extract._prune_target(target_dir, ["pv_witness", "pv-witness", "witness"])     # (still under the lock)
+            except Exception:  # noqa
+                pass
         fcntl.flock(lockf, fcntl.LOCK_UN)
         lockf.close()
         if tmp:
